@@ -207,7 +207,22 @@ def emitted_text(ctx, f, arm, ttype, in_cdata, data, extra_env=None):
     ce = ctx.ce
     out, errs = [], []
 
-    def hook(node, local):
+    import re as _re
+    compiled = {}
+    for st_ in f.module.tree.body:
+        if isinstance(st_, ast.Assign) and len(st_.targets) == 1 and isinstance(st_.targets[0], ast.Name) and isinstance(st_.value, ast.Call) and \
+                norm(st_.value.func) == "re.compile" and st_.value.args:
+            pat_ = ce.try_eval(st_.value.args[0], f.module)
+            flags_ = 0
+            if len(st_.value.args) > 1:
+                flags_ = {"re.I": _re.I, "re.IGNORECASE": _re.I, "re.S": _re.S, "re.M": _re.M, "re.X": _re.X, "re.A": _re.A}.get(norm(st_.value.args[1]))
+            if isinstance(pat_, str) and flags_ is not None:
+                try:
+                    compiled[st_.targets[0].id] = _re.compile(pat_, flags_)
+                except _re.error:
+                    pass
+
+    def hook(node, local, depth=0):
         if isinstance(node, ast.Call):
             fn = norm(node.func)
             if fn in ("self.encode", "self.encodeStrict") and len(node.args) == 1:
@@ -215,6 +230,20 @@ def emitted_text(ctx, f, arm, ttype, in_cdata, data, extra_env=None):
             if fn == "escape" and f.module.imports.get("escape") == ("xml.sax.saxutils", "escape"):
                 args = [ce.eval(a, f.module, local) for a in node.args]
                 return sax_escape(*args)
+            # a compiled module-level pattern: <name>.sub(repl, text) with constant arguments
+            if isinstance(node.func, ast.Attribute) and isinstance(node.func.value, ast.Name) and node.func.value.id in compiled and \
+                    node.func.attr == "sub" and len(node.args) in (2, 3) and not node.keywords:
+                args = [ce.eval(a, f.module, local) for a in node.args]
+                if all(isinstance(a, (str, int)) for a in args):
+                    return compiled[node.func.value.id].sub(*args)
+            # a pure helper function of the module (one level)
+            if isinstance(node.func, ast.Name) and node.func.id in f.module.functions and not node.keywords:
+                h = f.module.functions[node.func.id]
+                if len(h.params()) == len(node.args):
+                    args = [ce.eval(a, f.module, local) for a in node.args]
+                    sub = MiniInterp(ce, f.module, expr_hook=hook).run(h.node.body, dict(zip(h.params(), args)))
+                    if sub.returned and not sub.effects and not isinstance(sub.value, Opaque):
+                        return sub.value
         return NotImplemented
 
     def stmt_hook(st, o, interp):
@@ -253,8 +282,26 @@ def text_rules(ctx):
                 key = "text-escape[%s %r]" % (ttype, c)
                 try:
                     got, errs = emitted_text(ctx, f, arm, ttype, False, "x" + c + "y", extra)
+                    # the same character alone, at either end of the token and doubled: what follows a token is not known when
+                    # it is written (the DOM back-end keeps one text node per tokenizer token), so the escaping of a delimiter
+                    # cannot depend on its neighbours inside the token
+                    edge = {}
+                    if c in delims:
+                        import re as _re
+                        for d_ in (c, "x" + c, c + "y", c + c):
+                            o_, _e = emitted_text(ctx, f, arm, ttype, False, d_, extra)
+                            rest = _re.sub(r"&(amp|lt|gt|quot|apos|#[0-9]+|#[xX][0-9a-fA-F]+);", "", o_)
+                            if c in rest or "&" in rest or "<" in rest:
+                                edge[d_] = o_
                 except Exception as e:      # noqa: BLE001
                     r.idiom("S1", False, key, f.where, "text emission not decidable for %r (%s)" % (c, str(e)[:80]))
+                    continue
+                if edge:
+                    d_, o_ = sorted(edge.items())[0]
+                    r.bad("S1", key, "%s:%d" % (REL, arm.lineno),
+                          "the text token %r is written as %r: the %r is left as it is when nothing (or nothing suspicious) follows it *inside the token*, "
+                          "but the next token continues the text -- with the DOM back-end `&amp;lt;b&amp;gt;` is the node sequence `&`, `lt;b`, ... and is written "
+                          "as `&lt;b&gt;`, which a parser reads as markup" % (d_, o_, c), {"token": d_, "written": o_})
                     continue
                 if c in delims:
                     body = got[1:-1] if got.startswith("x") and got.endswith("y") else None
@@ -348,8 +395,10 @@ def cr_and_leading_lf(ctx):
                     setters[tid] = a.value
                 elif tid in copies:
                     setters[copies[tid]] = a.value
-    for elem in ("pre", "textarea", "listing", "div"):
-        key = "leading-lf[%s]" % elem
+    html_ns = "http://www.w3.org/1999/xhtml"
+    svg_ns = "http://www.w3.org/2000/svg"
+    for elem, ens in (("pre", html_ns), ("textarea", html_ns), ("listing", html_ns), ("textarea", None), ("div", html_ns), ("textarea", svg_ns)):
+        key = "leading-lf[%s]" % elem + ("" if ens == html_ns else "[namespace %s]" % ("none" if ens is None else "svg"))
         if not setters:
             r.idiom("S11", False, key, "%s:%d" % (REL, arm.lineno), "no state is carried from a start tag to the text that follows it",
                     wrong=[(not flags, "the text of <%s> is written as it is: `<%s>\\n\\nx</%s>` (text \"\\nx\" in the tree) is written as `<%s>\\nx`, and the "
@@ -358,16 +407,18 @@ def cr_and_leading_lf(ctx):
         env = dict(extra)
         try:
             for nm, val in setters.items():
-                env[nm] = ctx.ce.eval(val, f.module, {"name": elem, "type": "StartTag", "token": {"name": elem, "type": "StartTag", "data": {}}})
+                env[nm] = ctx.ce.eval(val, f.module, {"name": elem, "type": "StartTag",
+                                                       "token": {"name": elem, "type": "StartTag", "data": {}, "namespace": ens}})
             got, errs = emitted_text(ctx, f, arm, "Characters", False, "\nx", env)
             got_sp, _ = emitted_text(ctx, f, arm, "SpaceCharacters", False, "\n", env)
         except Exception as e:      # noqa: BLE001
             r.idiom("S11", False, key, "%s:%d" % (REL, arm.lineno), "first text after <%s> not decidable (%s)" % (elem, str(e)[:80]))
             continue
-        if elem == "div":
+        if elem == "div" or ens == svg_ns:
             r.check("S11", got == "\nx" and got_sp == "\n", key, "%s:%d" % (REL, arm.lineno),
-                    "text beginning with LF directly after <div> is written as %r / %r: no parser drops a newline there, a character is added"
-                    % (got, got_sp), detail={"written": got})
+                    "text beginning with LF directly after <%s>%s is written as %r / %r: no parser drops a newline there (an SVG element "
+                    "named textarea is an ordinary foreign element), a character is added"
+                    % (elem, " in the SVG namespace" if ens == svg_ns else "", got, got_sp), detail={"written": got})
             continue
         r.check("S11", got == "\n\nx" and got_sp == "\n\n", key, "%s:%d" % (REL, arm.lineno),
                 "text beginning with LF directly after <%s> is written as %r / %r: the parser drops the first LF after the start tag, so the "
@@ -555,7 +606,8 @@ def mutants():
           "                elif in_cdata and type == \"StartTag\":\n                    self.serializeError(\"Unexpected child element of a CDATA element\")\n                for (_, attr_name), attr_value", "S4"),
         T("escape-only-lt", REL, "                    yield self.encode(escape(token[\"data\"]))", "                    yield self.encode(token[\"data\"].replace(\"<\", \"&lt;\"))", "S1"),
         T("leading-lf-not-doubled", REL, "                if first_in_pre and token[\"data\"].startswith(\"\\n\"):", "                if False:", "S11"),
-        T("leading-lf-any-element", REL, "                after_pre = type == \"StartTag\" and name in (\"pre\", \"textarea\", \"listing\")", "                after_pre = type == \"StartTag\"", "S11"),
+        T("leading-lf-any-element", REL, "                             name in (\"pre\", \"textarea\", \"listing\") and\n", "", "S11"),
+        T("leading-lf-foreign-namesake", REL, " and\n                             token.get(\"namespace\") in (None, namespaces[\"html\"]))", ")", "S11"),
         T("leading-lf-no-textarea", REL, "name in (\"pre\", \"textarea\", \"listing\")", "name in (\"pre\", \"listing\")", "S11"),
         T("no-escape", REL, "                    yield self.encode(escape(token[\"data\"]))", "                    yield self.encode(token[\"data\"])", "S1"),
         T("raw-add-title", "constants.py", "rcdataElements = frozenset([\n    'style',", "rcdataElements = frozenset([\n    'title',\n    'style',", "S2"),
